@@ -86,9 +86,22 @@ def _reduced_atoms(name):
     return [atom(name, *p) for p in picks]
 
 
+# edge atoms: shapes that two waves of seeded changes needed and the product above does not contain (prose that opens with "Optional" /
+# "optional", a Literal member with a space, a default text with mixed quotes, a long str default that wraps, a required float)
+EDGE_ATOMS = (
+    ("Optional[int]", "Optional {n} of the run", None), ("int", "optional {n} of the run", 3), ("float", "optionally scaled {n}", 2.5),
+    ("Literal['fast path', 'slow']", "the {n}", "slow"), ("Literal['fast path', 'slow']", "the {n} " + "very " * 12 + "long", "fast path"),
+    ("str", "the {n}", "hello world and quite a few more words so that a wrapped line breaks inside the default text somewhere"),
+    ("float", "the {n}", ABSENT), ("Optional[float]", "the {n}", ABSENT), ("str", "the {n}", "it's"), ("Optional[List[str]]", "the {n}", None),
+    ("Union[int, float]", "the {n}", 2.5),
+)
+
+
 def domain(tier="quick", seed=0):
     """list of (label, ir)"""
     out = []
+    for e_i, (typ, prose, d) in enumerate(EDGE_ATOMS):
+        out.append(("e%d" % e_i, make_ir([("alpha", atom("alpha", typ, prose, d))], RETURNS[e_i % 2])))
     # every return shape alone
     for r_i, r in enumerate(RETURNS):
         out.append(("ret%d" % r_i, make_ir([], r)))
